@@ -115,6 +115,49 @@ def gen_euler(rng):
             "vars": vars_, "normalized": rng.random() < 0.5, "d": rng.choice(DISP)}
 
 
+def gen_mc(rng):
+    """Monte-Carlo wrapper of one of the three routines: base case + a sample table over variables'
+    initial values and plain parameters (the sample is written into a copy, then the plain routine runs)"""
+    base = rng.choice([gen_powerlaw, gen_powerlaw, gen_poly, gen_euler])(rng)
+    c = base["content"]
+    vnames = [k for k, _ in c["vars"]]
+    plain_p = [k for k, v in c["pars"] if "v" in v]
+    cols = []
+    if rng.random() < 0.75:
+        cols.append(rng.choice(vnames))  # a per-sample INITIAL VALUE
+    for k in rng.sample(vnames + plain_p, rng.randint(0 if cols else 1, 2)):
+        if k not in cols:
+            cols.append(k)
+    rng.shuffle(cols)
+    n = rng.randint(1, 4)
+    labels = list(range(n)) if rng.random() < 0.6 else rng.sample(range(50), n)
+    base["mc"] = {"cols": cols, "rows": [[l, [rng.choice(["1", "2", "3", "1/2", "3/2", "5/4", "4"]) for _ in cols]] for l in labels]}
+    if base["what"] == "par" and base["to_scan"] is None:
+        base["to_scan"] = plain_p  # mc.parameter_elasticities has no default
+    if base["what"] == "var" and rng.random() < 0.6:
+        base["vars"] = None  # default state: must be resolved per sample
+    if rng.random() < 0.5:
+        base["normalized"] = False  # unscaled coefficients depend on the state
+    return base
+
+
+def sample_kv(case, i):
+    names = {k for k, _ in case["content"]["vars"]} | {k for k, _ in case["content"]["pars"]}
+    return [(c, v) for c, v in zip(case["mc"]["cols"], case["mc"]["rows"][i][1]) if c in names]
+
+
+def sample_case(case, i):
+    """the plain-routine case a Monte-Carlo sample stands for: a model DECLARED with the sample's values"""
+    sub = {k: v for k, v in case.items() if k != "mc"}
+    if case["what"] == "resp":
+        # mc.response_coefficients writes `variables` into the model first, the sample on top of it
+        sub["content"] = L.with_values(L.with_values(case["content"], case["vars"] or []), sample_kv(case, i))
+        sub["vars"] = None
+    else:
+        sub["content"] = L.with_values(case["content"], sample_kv(case, i))
+    return sub
+
+
 # --------------------------------------------------------------------------- real side
 
 
@@ -128,9 +171,46 @@ def _table(df):
     return [[str(c), [[str(r), _nf(df.loc[r, c])] for r in df.index]] for c in df.columns]
 
 
+def _by_sample(df, labels):
+    """frame indexed by (sample label, row name) -> [[label, table]] in sample order"""
+    return [[l, _table(df.xs(l, level=0))] for l in labels]
+
+
+def run_real_mc(case, mode):
+    import pandas as pd
+    from mxlpy import mc
+
+    try:
+        m = L.build_model(case["content"])
+        before = H9._state(m)
+        vs = None if case["vars"] is None else {k: L.fl(v) for k, v in case["vars"]}
+        labels = [l for l, _ in case["mc"]["rows"]]
+        table = pd.DataFrame([[L.fl(v) for v in r] for _, r in case["mc"]["rows"]], columns=case["mc"]["cols"], index=labels)
+        kw = {"mc_to_scan": table, "to_scan": case["to_scan"], "variables": vs, "normalized": case["normalized"],
+              "displacement": L.fl(case["d"]), "max_workers": mode[1]}
+        with L.quiet():
+            if case["what"] == "var":
+                df = mc.variable_elasticities(m, time=L.fl(case["t"]), **kw)
+                out = {"samples": [[l, {"cols": t}] for l, t in _by_sample(df, labels)]}
+            elif case["what"] == "par":
+                df = mc.parameter_elasticities(m, time=L.fl(case["t"]), **kw)
+                out = {"samples": [[l, {"cols": t}] for l, t in _by_sample(df, labels)]}
+            else:
+                rc = mc.response_coefficients(m, integrator=L.make_integ(case.get("cfg")), **kw)
+                out = {"samples": [[l, {"cols": tv, "fcols": tf}] for (l, tv), (_, tf) in
+                                   zip(_by_sample(rc.variables, labels), _by_sample(rc.fluxes, labels))]}
+        out["before"] = before
+        out["after"] = H9._state(m)
+        return out
+    except Exception as e:  # noqa: BLE001
+        return {"err": [type(e).__name__]}
+
+
 def run_real(case, mode):
     from mxlpy import mca
 
+    if case.get("mc"):
+        return run_real_mc(case, mode)
     try:
         m = L.build_model(case["content"])
         before = H9._state(m)
@@ -291,7 +371,27 @@ def oracle_euler(case):
     return {"cols": cols, "fcols": fcols, "before": st, "after": st}
 
 
+def run_oracle_mc(case):
+    """per sample: the plain routine's oracle on a model declared with that sample's values"""
+    base = {"powerlaw": oracle_powerlaw, "poly": oracle_poly, "euler": oracle_euler}[case["stratum"]]
+    samples = []
+    for i, (label, _) in enumerate(case["mc"]["rows"]):
+        o = base(sample_case(case, i))
+        samples.append([label, {k: o[k] for k in ("cols", "fcols") if k in o}])
+    st = H9._state(L.build_model(case["content"]))
+    return {"samples": samples, "before": st, "after": st}
+
+
 def run_oracle(case):
+    if case.get("mc"):
+        try:
+            return run_oracle_mc(case)
+        except fexpr.Inexact:
+            return {"skip": "inexact"}
+        except ZeroDivisionError:
+            return {"skip": "zero"}
+        except Exception as e:  # noqa: BLE001
+            return {"err": [type(e).__name__]}
     try:
         return {"powerlaw": oracle_powerlaw, "poly": oracle_poly, "chain": oracle_chain, "euler": oracle_euler}[case["stratum"]](case)
     except fexpr.Inexact:
@@ -317,6 +417,27 @@ def model_request(case, mode, seed=0):
             req["n"] = mode[1]
             req["assign"] = [r.randrange(mode[1]) for _ in range(n)]
     return req
+
+
+def model_requests_mc(case):
+    reqs = []
+    for i in range(len(case["mc"]["rows"])):
+        req = model_request({k: v for k, v in case.items() if k != "mc"}, ["seq"])
+        req["sample"] = [[c, v] for c, v in zip(case["mc"]["cols"], case["mc"]["rows"][i][1])]
+        reqs.append(req)
+    return reqs
+
+
+def canon_model_mc(answers, S):
+    """driver answers (one per sample) -> observation shaped like S"""
+    if any("err" in a for a in answers):
+        return {"err": [next(a for a in answers if "err" in a)["err"][0]]}
+    samples, after = [], S["before"]
+    for (label, tmpl), a in zip(S["samples"], answers):
+        cm = canon_model(a, tmpl, S["before"])
+        samples.append([label, {k: cm[k] for k in ("cols", "fcols") if k in cm}])
+        after = cm["after"]
+    return {"samples": samples, "before": S["before"], "after": after}
 
 
 def canon_model(resp, template, before):
@@ -347,6 +468,8 @@ def canon_model(resp, template, before):
 
 
 def modes_for(case, rng, thorough):
+    if case.get("mc"):
+        return [["mc", w] for w in ((1, 2, 3) if thorough else (rng.choice([1, 2, 3]),))]
     if case["what"] != "resp":
         return [["seq"]]
     if thorough:
@@ -389,6 +512,13 @@ def tol_of(case):
 def classify(case, mode, R, S):
     """F-C18-1: sequential response_coefficients with custom variables leaves the initial values overwritten;
     everything else equal"""
+    if case.get("mc"):
+        # F-C18-2: mc.response_coefficients(variables=...) writes the custom variables into the CALLER's model
+        if "samples" in R and "samples" in S and case["what"] == "resp" and case["vars"] is not None \
+                and R["samples"] == S["samples"] and R["before"] == S["before"] \
+                and R["after"]["pars"] == S["after"]["pars"] and R["after"]["init"] != S["after"]["init"]:
+            return "F-C18-2"
+        return None
     if "cols" not in R or "cols" not in S or case["what"] != "resp" or mode[0] != "seq" or case["vars"] is None:
         return None
     if R["cols"] == S["cols"] and R.get("fcols") == S.get("fcols") and R["before"] == S["before"] \
@@ -399,6 +529,11 @@ def classify(case, mode, R, S):
 
 def shape(case):
     c = case["content"]
+    if case.get("mc"):
+        vs = {k for k, _ in c["vars"]}
+        return (f"mc-{case['stratum']}-{case['what']}-samples{len(case['mc']['rows'])}-"
+                f"{'samplevar' if any(col in vs for col in case['mc']['cols']) else 'samplepar'}-"
+                f"{'norm' if case['normalized'] else 'raw'}-{'y' if case['vars'] else 'init'}")
     return (f"{case['stratum']}-{case['what']}-v{len(c['vars'])}p{len(c['pars'])}r{len(c['rxns'])}"
             f"-{'norm' if case['normalized'] else 'raw'}-{'y' if case['vars'] else 'init'}-d{case['d']}")
 
@@ -418,7 +553,7 @@ def judge_case(ctx, case, modes, S, Rs, Ms):
     if "skip" in S:
         ctx.hist["skipped_" + S["skip"]] = ctx.hist.get("skipped_" + S["skip"], 0) + 1
         return
-    ctx.count(case, shape(case), "cols" in S)
+    ctx.count(case, shape(case), "cols" in S or "samples" in S)
     tol = tol_of(case)
     Sj = L.jnum(S)
     for mode, R, M in zip(modes, Rs, Ms):
@@ -443,16 +578,28 @@ def evaluate(ctx, jobs):
     outs = list(pool().map(_work, jobs, chunksize=1))
     reqs, where = [], []
     for ci, ((case, modes), (S, Rs)) in enumerate(zip(jobs, outs)):
-        if not ctx.driver_ok or "cols" not in S or case["stratum"] == "chain":
+        if not ctx.driver_ok or case["stratum"] == "chain":
+            continue
+        if case.get("mc"):
+            if "samples" in S:
+                rq = model_requests_mc(case)
+                for mi in range(len(modes)):
+                    where.append((ci, mi, len(reqs), len(rq)))
+                reqs += rq
+            continue
+        if "cols" not in S:
             continue
         for mi, mode in enumerate(modes):
+            where.append((ci, mi, len(reqs), 1))
             reqs.append(model_request(case, mode, seed=ci * 17 + mi))
-            where.append((ci, mi))
     answers = driver.call_batch(reqs) if reqs else []
     Ms = [[None] * len(modes) for _, modes in jobs]
-    for (ci, mi), a in zip(where, answers):
+    for ci, mi, start, cnt in where:
         S = outs[ci][0]
-        Ms[ci][mi] = canon_model(a, S, S["before"])
+        if jobs[ci][0].get("mc"):
+            Ms[ci][mi] = canon_model_mc(answers[start:start + cnt], S)
+        else:
+            Ms[ci][mi] = canon_model(answers[start], S, S["before"])
     return [(S, Rs, Ms[ci]) for ci, (S, Rs) in enumerate(outs)]
 
 
@@ -509,7 +656,7 @@ def run(ctx):
     thorough = ctx.tier == "thorough" or not ctx.proof_ok
     cases = list(corpus())
     n = ctx.n(300, 3000)
-    gens = [gen_powerlaw, gen_powerlaw, gen_powerlaw, gen_poly, gen_poly, gen_euler, gen_euler, gen_chain]
+    gens = [gen_powerlaw, gen_powerlaw, gen_mc, gen_poly, gen_poly, gen_euler, gen_mc, gen_chain, gen_powerlaw, gen_euler]
     while len(cases) < n:
         cases.append(gens[len(cases) % len(gens)](rng))
     batch = 80
